@@ -551,6 +551,50 @@ pub open spec fn lazy_result_ok<T: CellType, E>(src: LazySrc<Cell<T>, E>, naw: b
     }
 }
 
+
+// ---- witnesses: the hypotheses of the lemmas are satisfiable (a one-cell sheet read with header row 2 and with the default option)
+fn witness_header_row_lemma() {
+    proof { lemma_lawful_cells(); }
+    let c = Cell::new((3u32, 1u32), DataRef::Int(7));
+    let pc = Cell::new((2u32, 1u32), DataRef::Empty);
+    let ghost stream: Seq<Cell<DataRef<'static>>> = seq![c];
+    let mut v0: Vec<Cell<DataRef<'static>>> = Vec::new();
+    v0.push(Cell::new((3u32, 1u32), DataRef::Int(7)));
+    let mut vn: Vec<Cell<DataRef<'static>>> = Vec::new();
+    vn.push(pc);
+    vn.push(Cell::new((3u32, 1u32), DataRef::Int(7)));
+    proof {
+        reveal_with_fuel(keep, 3);
+        assert(stream.drop_last() =~= Seq::<Cell<DataRef<'static>>>::empty());
+        assert(stream.last() == c);
+        assert(wanted(c, 0) && wanted(c, 2));
+        assert(keep(stream, 0) =~= seq![c]);
+        assert(keep(stream, 2) =~= seq![c]);
+        assert(v0@ =~= lazy_cells(HeaderRow::FirstNonEmptyRow, stream));
+        assert(pad(seq![c], 2) =~= seq![pc, c]);
+        assert(vn@ =~= lazy_cells(HeaderRow::Row(2), stream));
+        assert(rows_mono(stream));
+    }
+    let r0 = Range::from_sparse(v0);
+    let rn = Range::from_sparse(vn);
+    proof {
+        header_row_lemma(stream, 2, r0, rn);
+        default_row_lemma(stream, r0);
+        lemma_range_determined_by_cells(lazy_cells(HeaderRow::FirstNonEmptyRow, stream), r0, r0);
+        assert(rn.nonempty() && rn.lo().0 == 2);
+        assert(rn.val_at(3, 1) == r0.val_at(3, 1));
+    }
+}
+fn witness_eager_header_row_lemma() {
+    proof { lemma_lawful_cells(); }
+    let sheet: Range<Data> = Range::new((1, 0), (4, 2));
+    let w = sheet.range((2, 0), (4, 2));
+    proof {
+        eager_header_row_lemma(sheet, 2, w);
+        assert(w.lo().0 == 2);
+    }
+}
+
 // =====================================================================================================================
 // Stand-ins for the cell readers and the reader traits
 // =====================================================================================================================
@@ -816,7 +860,9 @@ proof fn lemma_u32_product(a: int, b: int)
                         }
                     }
 //@@ closure 0
-    -> (res: bool) ensures res == (c.pos.0 != header_row_idx)
+    -> (res: bool) ensures
+        //# C08.lazy_pad_condition
+        res == (c.pos.0 != header_row_idx)
 //@@ before /if cells\.first\(\)/
                 let ghost kept = cells@;
                 proof { assert(stream.take(stream.len() as int) =~= stream); }
@@ -828,10 +874,12 @@ proof fn lemma_u32_product(a: int, b: int)
                 HeaderRow::Row(n) => {
                     let ks = keep(stream, n as int);
                     if ks.len() > 0 && ks[0].pos.0 != n {
+                        //# C08.lazy_pad_cell_in_front
                         assert(cells@ =~= seq![Cell { pos: (n, ks[0].pos.1), val: DataRef::<'a>::Empty }] + ks);
                     }
                 }
             }
+            //# C08.lazy_cells_handed_to_from_sparse
             assert(cells@ == lazy_cells(header_row, stream));
             if rows_mono(stream) { lemma_lazy_cells_sorted(header_row, stream); }
         }
@@ -851,7 +899,9 @@ impl Xlsx<VerifRs> {
         exists|rr: Result<Range<DataRef<'static>>, XlsxError>|
             #[trigger] lazy_result_ok(old(self).sheet_src(name@), old(self).naw(name@), old(self).hr(), rr) && converted_result(r, rr),
 //@@ closure 0
-    -> (res: Data) ensures res == to_data(v)
+    -> (res: Data) ensures
+        //# C07.range_cell_conversion
+        res == to_data(v)
 //@@ before /Ok\(Range \{/
         proof {
             let iv = data_seq(&inner);   // (also tells rustc the type of `inner`, which the source leaves to the struct literal below)
@@ -952,7 +1002,9 @@ impl Xlsx<VerifRs> {
                         }
                     }
 //@@ closure 0
-    -> (res: bool) ensures res == (c.pos.0 != header_row_idx)
+    -> (res: bool) ensures
+        //# C08.lazy_pad_condition
+        res == (c.pos.0 != header_row_idx)
 //@@ before /if cells\.first\(\)/
                 let ghost kept = cells@;
                 proof { assert(stream.take(stream.len() as int) =~= stream); }
@@ -964,10 +1016,12 @@ impl Xlsx<VerifRs> {
                 HeaderRow::Row(n) => {
                     let ks = keep(stream, n as int);
                     if ks.len() > 0 && ks[0].pos.0 != n {
+                        //# C08.lazy_pad_cell_in_front
                         assert(cells@ =~= seq![Cell { pos: (n, ks[0].pos.1), val: DataRef::<'a>::Empty }] + ks);
                     }
                 }
             }
+            //# C08.lazy_cells_handed_to_from_sparse
             assert(cells@ == lazy_cells(header_row, stream));
             if rows_mono(stream) { lemma_lazy_cells_sorted(header_row, stream); }
         }
@@ -983,7 +1037,9 @@ impl Xlsb<VerifRs> {
         exists|rr: Result<Range<DataRef<'static>>, XlsbError>|
             #[trigger] lazy_result_ok(old(self).sheet_src(name@), false, old(self).hr(), rr) && converted_result(r, rr),
 //@@ closure 0
-    -> (res: Data) ensures res == to_data(v)
+    -> (res: Data) ensures
+        //# C07.range_cell_conversion
+        res == to_data(v)
 //@@ before /Ok\(Range \{/
         proof {
             let iv = data_seq(&inner);   // (also tells rustc the type of `inner`, which the source leaves to the struct literal below)
@@ -1108,9 +1164,13 @@ impl<RS> Ods<RS> {
 //@@ body
         proof { axiom_string_keyed_map(self.sheets@, name); lemma_lawful_cells(); }
 //@@ closure 0
-    -> (res: Range<Data>) ensures res == r.range
+    -> (res: Range<Data>) ensures
+        //# C08.eager_takes_the_data_range
+        res == r.range
 //@@ closure 1
-    -> (res: XlsError) ensures res is WorksheetNotFound
+    -> (res: XlsError) ensures
+        //# C07.eager_unknown_sheet_error_kind
+        res is WorksheetNotFound
 //@@ end
 //@@ endimpl
 
@@ -1140,9 +1200,63 @@ impl<RS> Ods<RS> {
 //@@ body
         proof { axiom_string_keyed_map(self.sheets@, name); lemma_lawful_cells(); }
 //@@ closure 0
-    -> (res: OdsError) ensures res is WorksheetNotFound
+    -> (res: OdsError) ensures
+        //# C07.eager_unknown_sheet_error_kind
+        res is WorksheetNotFound
 //@@ end
 //@@ endimpl
+
+
+// =====================================================================================================================
+// C08 "Changing the option affects only subsequent reads and can be changed back": the with_header_row contracts compose; every read
+// contract above is a function of (sheet source, old(self).hr()) only, i.e. of the option value at the time of the call.
+// =====================================================================================================================
+//@@ props C08
+fn option_history_xlsx<RS: Read + Seek>(wb: &mut Xlsx<RS>, h: HeaderRow)
+    ensures
+        //# C08.option_can_be_changed_back
+        final(wb).hr() == old(wb).hr() && final(wb).rest() == old(wb).rest(),
+{
+    let h0 = wb.options.header_row;
+    wb.with_header_row(h);
+    //# C08.option_change_touches_only_the_option
+    assert(wb.hr() == h && wb.rest() == old(wb).rest());
+    wb.with_header_row(h0);
+}
+fn option_history_xlsb<RS: Read + Seek>(wb: &mut Xlsb<RS>, h: HeaderRow)
+    ensures
+        //# C08.option_can_be_changed_back
+        final(wb).hr() == old(wb).hr() && final(wb).rest() == old(wb).rest(),
+{
+    let h0 = wb.options.header_row;
+    wb.with_header_row(h);
+    //# C08.option_change_touches_only_the_option
+    assert(wb.hr() == h && wb.rest() == old(wb).rest());
+    wb.with_header_row(h0);
+}
+fn option_history_xls<RS: Read + Seek>(wb: &mut Xls<RS>, h: HeaderRow)
+    ensures
+        //# C08.option_can_be_changed_back
+        final(wb).hr() == old(wb).hr() && final(wb).rest() == old(wb).rest(),
+{
+    let h0 = wb.options.header_row;
+    wb.with_header_row(h);
+    //# C08.option_change_touches_only_the_option
+    assert(wb.hr() == h && wb.rest() == old(wb).rest());
+    wb.with_header_row(h0);
+}
+fn option_history_ods<RS: Read + Seek>(wb: &mut Ods<RS>, h: HeaderRow)
+    ensures
+        //# C08.option_can_be_changed_back
+        final(wb).hr() == old(wb).hr() && final(wb).rest() == old(wb).rest(),
+{
+    let h0 = wb.options.header_row;
+    wb.with_header_row(h);
+    //# C08.option_change_touches_only_the_option
+    assert(wb.hr() == h && wb.rest() == old(wb).rest());
+    wb.with_header_row(h0);
+}
+//@@ props C08,C07,C01,C03,C06
 
 } // verus!
 impl Read for VerifRs { fn read(&mut self, _buf: &mut [u8]) -> std::io::Result<usize> { unimplemented!() } }
